@@ -36,6 +36,18 @@ def gen_graph(rng, n, shape):
         for _ in range(rng.randint(0, 2)):
             i = rng.randrange(n)
             E.add((i, rng.randrange(i, n)))
+    elif shape == 'fairfriendly':
+        # every state has a self-loop and lies on a cycle: fair-state sets
+        # are non-empty and (known finding KF1 aside) order-independent
+        k = rng.randint(1, n)
+        for i in range(n):
+            E.add((i, i))
+        for i in range(k):
+            E.add((i, (i + 1) % k))
+        for i in range(k, n):
+            E.add((i, rng.randrange(n)))
+            if rng.random() < 0.5:
+                E.add((rng.randrange(k), i))
     elif shape == 'unreach':
         m = max(1, n - 1)
         for i in range(m):
